@@ -13,14 +13,14 @@ structure Msg where
 deriving DecidableEq, Repr
 
 /-- alias bindings, newest first -/
-abbrev Env := List (String × Msg)
+abbrev TEnv := List (String × Msg)
 
 section
-variable (holds : Pred → Env → Msg → Bool)
+variable (holds : Pred → TEnv → Msg → Bool)
 
 /-- all environments under which `m` matches the event (relational reading, executable): a simple event matches a
     message of its topic satisfying its predicate and binds its alias; a disjunction contributes both alternatives -/
-def Event.matchAll (σ : Env) (m : Msg) : Event → List Env
+def Event.matchAll (σ : TEnv) (m : Msg) : Event → List TEnv
   | .simple t a p =>
       if m.topic = t ∧ holds p σ m = true then
         [match a with | some x => (x, m) :: σ | none => σ]
@@ -35,7 +35,7 @@ instance (t0 t : Rat) (b : Option Rat) : Decidable (within t0 t b) := by
   cases b <;> simp only [within] <;> infer_instance
 
 /-- pattern satisfaction over a scope segment `seg` starting at time `t0` with activator bindings `σ` -/
-def satPattern (σ : Env) (t0 : Rat) (seg : List Msg) (p : Pattern) : Prop :=
+def satPattern (σ : TEnv) (t0 : Rat) (seg : List Msg) (p : Pattern) : Prop :=
   match p.kind, p.trigger with
   | .absence, _ => ∀ m ∈ seg, within t0 m.time p.maxTime → p.behaviour.matchAll holds σ m = []
   | .existence, _ => ∃ m ∈ seg, within t0 m.time p.maxTime ∧ p.behaviour.matchAll holds σ m ≠ []
@@ -51,14 +51,14 @@ def satPattern (σ : Env) (t0 : Rat) (seg : List Msg) (p : Pattern) : Prop :=
   | _, none => True     -- ill-formed (rejected by the pattern constructor); irrelevant
 
 /-- cut a message list at the first message matching the terminator -/
-def cutAt (σ : Env) (q : Event) : List Msg → List Msg × List Msg
+def cutAt (σ : TEnv) (q : Event) : List Msg → List Msg × List Msg
   | [] => ([], [])
   | m :: ms => if q.matchAll holds σ m ≠ [] then ([], m :: ms) else
       let (a, b) := cutAt σ q ms; (m :: a, b)
 
 /-- scope segments: (bindings, start time, messages in scope). `reentrant` selects the reading of after–until:
     the scope opens once (first activator) or re-opens after every terminator. -/
-def segmentsAfter (reentrant : Bool) (p : Event) (q : Option Event) : Nat → List Msg → List (Env × Rat × List Msg)
+def segmentsAfter (reentrant : Bool) (p : Event) (q : Option Event) : Nat → List Msg → List (TEnv × Rat × List Msg)
   | 0, _ => []
   | _, [] => []
   | fuel+1, m :: ms =>
@@ -72,7 +72,7 @@ def segmentsAfter (reentrant : Bool) (p : Event) (q : Option Event) : Nat → Li
           let (inside, rest) := cutAt holds σ q ms
           (σ, m.time, inside) :: (if reentrant then segmentsAfter true p (some q) fuel (rest.drop 1) else [])
 
-def segments (reentrant : Bool) (s : Scope) (tr : List Msg) : List (Env × Rat × List Msg) :=
+def segments (reentrant : Bool) (s : Scope) (tr : List Msg) : List (TEnv × Rat × List Msg) :=
   match s.kind, s.activator, s.terminator with
   | .global, _, _ => [([], 0, tr)]
   | .until_, _, some q => [([], 0, (cutAt holds [] q tr).1)]
